@@ -188,7 +188,7 @@ def build_driver(name: str = "core") -> str:
 _ASSUME_RE = re.compile(r"^(Closed under the global context|Axioms:)", re.M)
 
 
-def prove(prop: str) -> dict:
+def prove(prop: str, coqchk: bool = False) -> dict:
     """Step A.  Regenerate Gen/Tables.v from /repo, build everything Properties/<prop>.v
     depends on, then (always) re-run coqc on the property file itself and read what
     `Print Assumptions` printed.  Returns a dict describing the outcome; never raises
@@ -231,6 +231,15 @@ def prove(prop: str) -> dict:
             else:
                 res["failed"] = f"Properties/{prop}.v"
             return res
+        if coqchk:
+            # independent re-check of the compiled property file and everything it depends on
+            rc2, out2 = _run(["coqchk", "-silent", "-o", "-Q", ".", "HT", f"HT.Properties.{prop}"], COQ, 1800)
+            tail = out2.strip().splitlines()[-12:]
+            res["coqchk"] = {"exit": rc2, "tail": tail}
+            if rc2 != 0:
+                res["log"] = out2[-3000:]
+                res["failed"] = f"coqchk HT.Properties.{prop}"
+                return res
     # parse Print Assumptions blocks, in order
     blocks = re.split(r"^(?=Closed under the global context|Axioms:)", out, flags=re.M)
     blocks = [b.strip() for b in blocks if _ASSUME_RE.match(b)]
@@ -338,7 +347,12 @@ class Ctx:
 
     # -- proof step -----------------------------------------------------------------
     def proof(self) -> dict:
-        r = prove(self.prop)
+        r = prove(self.prop, coqchk=not self.quick)
+        if "coqchk" in r:
+            self.extra["coqchk"] = r["coqchk"]
+            if r["coqchk"]["exit"] == 0:
+                self.trusted_base.append("coqchk -o (independent checker) on HT.Properties.%s: %s"
+                                         % (self.prop, " | ".join(l.strip() for l in r["coqchk"]["tail"] if l.strip())[-400:]))
         self.checker_cmd = (f"tools/translate.py /repo coq/Gen/Tables.v && make -C coq <deps of "
                             f"Properties/{self.prop}.vo> && coqc -Q coq HT coq/Properties/{self.prop}.v")
         for t in r["theorems"]:
